@@ -13,12 +13,14 @@ import BronVerif.Lemmas.SharingExamples
 import BronVerif.Lemmas.SharingLCW
 import Mathlib.LinearAlgebra.Matrix.NonsingularInverse
 import Mathlib.Tactic.IntervalCases
+import Mathlib.Tactic.FinCases
 import BronVerif.Model.Access
 import BronVerif.Model.Sharing
 import BronVerif.Lemmas.SharingSpan
 import BronVerif.Lemmas.SharingPoly
 import BronVerif.Lemmas.SharingThreshold
 import BronVerif.Lemmas.SharingTree
+import BronVerif.Lemmas.SharingHier
 /-!
 # C02 — exactly the qualified sets can reconstruct; unqualified sets learn nothing
 
@@ -505,7 +507,13 @@ example : (treeMSP (F := ZMod 7) (.gate 2 [.leaf 1, .leaf 2, .gate 2 [.leaf 1, .
 (= `hierarchical.InducedMSP`, Birkhoff–Vandermonde rows) under the constructor's checks and
 `CheckConstraints` for a field with `q` elements.  **Not proved** (it needs Tassa's Theorem 3: the
 field-size condition makes every Birkhoff matrix satisfying Pólya's condition non-singular);
-established per instance by the C02 driver. -/
+established per instance by the C02 driver (op `oracle` and `accepts` on every subset).  Proved
+around it: `hier_qualified_accepted_partial` (accepted, given a non-singular square selection of
+rows), `hier_unqualified_rejected` (every set violating some level threshold is rejected, given a
+kernel vector for its rows of the levels up to the violated one — equivalently
+`hier_unqualified_rejected_of_det`, given a non-singular completion containing the target row),
+`model_hier_rejects_first_level` (the executable programme rejects every set below the first
+threshold, with no extra hypothesis). -/
 def hier_statement (F : Type) [Field F] [DecidableEq F] [Fintype F] : Prop :=
   ∀ levels : List (Int × List ℕ), (Policy.hier levels).validate = .ok () →
     hierCheck (Fintype.card F) levels = .ok () →
@@ -539,6 +547,122 @@ theorem hier_qualified_accepted_partial {F : Type*} [Field F] {ρ : Type*} [Fint
 /-- non-vacuity: rows 0 and 1 of the (2,3) programme over `ZMod 7` form a non-singular square -/
 example : ∃ c : Fin 3 → ZMod 7, (∀ i ∉ ({0, 1} : Finset (Fin 3)), c i = 0) ∧ c ᵥ* M23 = Pi.single 0 1 :=
   hier_qualified_accepted_partial M23 0 {0, 1} ![0, 1] (by decide) (by decide)
+
+/-- **Hierarchical, every unqualified set is rejected — the part that needs no Birkhoff theory.**
+`M` is the programme, `S` the rows of a set violating the threshold `t` of some level, `S₀ ⊆ S` its
+rows of derivative order `< t` (members of the levels up to the violated one; fewer than `t` of
+them), `low` the first `t` columns.  The rows of `S \ S₀` have order `≥ t`, so they vanish on the low
+columns (`Lemmas.SharingHier.birkhoffEntry_of_lt` for the model's entries).  If the rows of `S₀`
+have a common kernel vector `k` supported on the low columns with `k_z = 1` — a polynomial of
+degree `< t` with constant term 1 satisfying the fewer than `t` Birkhoff conditions of `S₀`; this
+existence is what Tassa's Theorem 3 supplies under `CheckConstraints`, `kernel_of_det_ne_zero`
+derives it from a non-singular completion that contains the target row — then no combination of
+the rows of `S` gives the target.  Missing for `hier_statement`: the existence of `k` at the levels
+after the first (named gap: Tassa, Theorem 3); for the first level it is unconditional, see
+`model_hier_rejects_first_level`. -/
+theorem hier_unqualified_rejected {F : Type*} [Field F] {ρ δ : Type*} [Fintype ρ] [Fintype δ]
+    [DecidableEq δ] (M : Matrix ρ δ F) (z : δ) (S S₀ : Finset ρ) (low : δ → Prop)
+    (hzero : ∀ r ∈ S, r ∉ S₀ → ∀ j, low j → M r j = 0)
+    (k : δ → F) (hk0 : k z = 1) (hkhigh : ∀ j, ¬ low j → k j = 0)
+    (hker : ∀ r ∈ S₀, M r ⬝ᵥ k = 0) :
+    ¬ ∃ c : ρ → F, (∀ r ∉ S, c r = 0) ∧ c ᵥ* M = Pi.single z 1 := by
+  rintro ⟨c, hsupp, hc⟩
+  have hrow : ∀ r ∈ S, (M *ᵥ k) r = 0 := by
+    intro r hr
+    by_cases hr0 : r ∈ S₀
+    · exact hker r hr0
+    · simp only [mulVec, dotProduct]
+      refine Finset.sum_eq_zero fun j _ => ?_
+      by_cases hl : low j
+      · rw [hzero r hr hr0 j hl, zero_mul]
+      · rw [hkhigh j hl, mul_zero]
+  have h1 : c ⬝ᵥ (M *ᵥ k) = 0 := by
+    simp only [dotProduct]
+    refine Finset.sum_eq_zero fun r _ => ?_
+    by_cases hr : r ∈ S
+    · rw [hrow r hr, mul_zero]
+    · rw [hsupp r hr, zero_mul]
+  rw [dotProduct_mulVec, hc, single_one_dotProduct, hk0] at h1
+  exact one_ne_zero h1
+
+/-- the kernel vector of `hier_unqualified_rejected` from a non-singular completion: if a square
+matrix whose row 0 is the target `e₀` is non-singular (for Birkhoff rows: Tassa's Theorem 3 applied
+to the set together with a phantom dealer node `0` of order 0), there is `k` with `k₀ = 1` that every
+other row annihilates -/
+theorem kernel_of_det_ne_zero {F : Type*} [Field F] {n : ℕ} (N : Matrix (Fin (n + 1)) (Fin (n + 1)) F)
+    (hdet : N.det ≠ 0) (h0 : N 0 = Pi.single 0 1) :
+    ∃ k : Fin (n + 1) → F, k 0 = 1 ∧ ∀ i, i ≠ 0 → N i ⬝ᵥ k = 0 := by
+  have hunit : IsUnit N.det := isUnit_iff_ne_zero.mpr hdet
+  refine ⟨N⁻¹ *ᵥ Pi.single 0 1, ?_, ?_⟩
+  · have h : (N *ᵥ (N⁻¹ *ᵥ Pi.single 0 1)) 0 = 1 := by
+      rw [mulVec_mulVec, Matrix.mul_nonsing_inv N hunit, one_mulVec]; simp
+    simp only [mulVec] at h
+    rw [h0, single_one_dotProduct] at h
+    exact h
+  · intro i hi
+    have h : (N *ᵥ (N⁻¹ *ᵥ Pi.single 0 1)) i = 0 := by
+      rw [mulVec_mulVec, Matrix.mul_nonsing_inv N hunit, one_mulVec]; simp [hi]
+    exact h
+
+/-- non-vacuity: over `ZMod 7`, levels `{1}` (threshold 2) and `{2}` (threshold 3): the rows of the
+set `{1, 2}` are `(1,1,1)` (id 1, order 0) and `(0,0,2)` (id 2, order 2); the set has one member of
+the first level instead of two, the second row vanishes on the first two columns, `k = (1,-1,0)`
+kills the first row: the set is rejected -/
+example : ¬ ∃ c : Fin 2 → ZMod 7, (∀ r ∉ (Finset.univ : Finset (Fin 2)), c r = 0) ∧
+    c ᵥ* (!![1, 1, 1; 0, 0, 2] : Matrix (Fin 2) (Fin 3) (ZMod 7)) = Pi.single 0 1 :=
+  hier_unqualified_rejected _ 0 Finset.univ {0} (fun j => (j : ℕ) < 2)
+    (by
+      intro r _ hr j hj
+      fin_cases r
+      · simp at hr
+      · fin_cases j <;> simp_all)
+    ![1, -1, 0] (by decide)
+    (by intro j hj; fin_cases j <;> simp_all)
+    (by intro r hr; fin_cases r <;> simp_all [dotProduct, Fin.sum_univ_three])
+
+example : ∃ k : Fin 2 → ZMod 7, k 0 = 1 ∧ ∀ i, i ≠ 0 →
+    (!![1, 0; 1, 3] : Matrix (Fin 2) (Fin 2) (ZMod 7)) i ⬝ᵥ k = 0 :=
+  kernel_of_det_ne_zero _ (by decide) (by decide)
+
+/-- **Hierarchical, first level, for the executable model — unconditional.**  Levels
+`(t₀, ids₀) :: rest` with `0 < t₀` and later thresholds at least `t₀` (the constructor demands
+strictly increasing thresholds), shareholder IDs distinct and non-zero as field elements: the
+programme the driver builds (`hierMSP`, mirror of `hierarchical.InducedMSP`) and tests with the
+mirrored solver rejects every set `S` of shareholders that has fewer than `t₀` members of the first
+level.  No field-size condition and no Birkhoff theory is needed for this level. -/
+theorem model_hier_rejects_first_level {F : Type} [Field F] [DecidableEq F] (t0 : Int)
+    (ids0 : List ℕ) (rest : List (Int × List ℕ)) (S : List ℕ) (ht0 : 0 < t0)
+    (hmono : ∀ l ∈ rest, t0 ≤ l.1)
+    (hid : Set.InjOn (Nat.cast : ℕ → F) {i | i ∈ (((t0, ids0) :: rest).map (·.2)).flatten})
+    (h0 : ∀ i : ℕ, i ∈ (((t0, ids0) :: rest).map (·.2)).flatten → (i : F) ≠ 0)
+    (hS : ∀ i ∈ S, i ∈ (((t0, ids0) :: rest).map (·.2)).flatten)
+    (hfew : (S.toFinset ∩ ids0.toFinset).card < t0.toNat) :
+    (hierMSP (F := F) ((t0, ids0) :: rest)).accepts S = false := by
+  refine BronVerif.Lemmas.SharingHier.hierMSP_rejects_first_level t0 ids0 rest S ht0 hmono hid h0 hS ?_
+  have hnd := (BronVerif.Lemmas.SharingThreshold.nodup_sortedSet
+    ((((t0, ids0) :: rest).map (·.2)).flatten)).filter (fun id => S.contains id && ids0.contains id)
+  rw [← List.toFinset_card_of_nodup hnd]
+  refine lt_of_le_of_lt (Finset.card_le_card ?_) hfew
+  intro a ha
+  simp only [List.mem_toFinset, List.mem_filter, Bool.and_eq_true, List.contains_iff_mem] at ha
+  simp only [Finset.mem_inter, List.mem_toFinset]
+  exact ha.2
+
+/-- non-vacuity: levels `{1,2}` (threshold 2) and `{3}` (threshold 3) over `ZMod 7`; the set `{1,3}`
+has one member of the first level and is rejected -/
+example : (hierMSP (F := ZMod 7) [(2, [1, 2]), (3, [3])]).accepts [1, 3] = false := by
+  refine model_hier_rejects_first_level (F := ZMod 7) 2 [1, 2] [(3, [3])] [1, 3] (by decide)
+    (by decide) ?_ ?_ (by decide) (by decide)
+  · intro a ha b hb h
+    simp only [List.map_cons, List.map_nil, List.flatten_cons, List.flatten_nil, List.append_nil,
+      List.cons_append, List.nil_append, List.mem_cons, List.not_mem_nil, or_false,
+      Set.mem_ofPred_eq] at ha hb
+    rcases ha with rfl | rfl | rfl <;> rcases hb with rfl | rfl | rfl <;>
+      first | rfl | (exfalso; revert h; decide)
+  · intro i hi
+    simp only [List.map_cons, List.map_nil, List.flatten_cons, List.flatten_nil, List.append_nil,
+      List.cons_append, List.nil_append, List.mem_cons, List.not_mem_nil, or_false] at hi
+    rcases hi with rfl | rfl | rfl <;> decide
 
 end Partial
 
